@@ -234,9 +234,9 @@ static void one(const vf::Args& a, uint64_t idx, const char* tname) {
       for (T xq : {xm, xp}) {
         const L vq = val(xq);
         // the interpolant one ulp away: y_k + S'(x_k) (xq - x_k) (+ S'' ulp^2, negligible); the
-        // remaining slope*ulp/16 covers the difference between the library's and the reference d_k
+        // remaining slope*ulp/8 covers the difference between the library's and the reference d_k
         const L want = Y[size_t(k)] + rs.d[size_t(k)] * (L(xq) - L(xk));
-        if (upd(std::fabs(vq - want), tolv + slope * ulp / 16, w0, t0)) { q0 = xq; g0 = vq; e0 = want; }
+        if (upd(std::fabs(vq - want), tolv + slope * ulp / 8, w0, t0)) { q0 = xq; g0 = vq; e0 = want; }
       }
       if (k == 0 || k == n - 1) {
         // natural end condition: second derivative just inside the table
@@ -262,7 +262,7 @@ static void one(const vf::Args& a, uint64_t idx, const char* tname) {
       const L sec = (6 * Dl + 4 * dk + 2 * dl) / hl + (6 * Dr + 4 * dk + 2 * dr) / hr;
       // right value is taken one ulp inside the right interval: S'(x_k+u) = S'(x_k) + S''(x_k) u
       const L u1 = L(xp) - L(xk);
-      const L tol1 = K * eps * (dk + dl + dr + Dl + Dr) * 8 + sec * ulp / 16;
+      const L tol1 = K * eps * (dk + dl + dr + Dl + Dr) * 8 + sec * ulp / 8;
       if (upd(std::fabs(L(dfr) - L(dfl) - rs.M[size_t(k)] * u1), tol1, w1, t1)) { q1 = xk; g1 = L(dfl) - L(dfr); }
       const L third = 6 * ((2 * Dl + dk + dl) / (hl * hl) + (2 * Dr + dk + dr) / (hr * hr));
       const L s3r = (rs.M[size_t(k + 1)] - rs.M[size_t(k)]) / hr;
